@@ -338,12 +338,16 @@ def phase_checks():
             fname, plist = checks_for(m, spans)
             for p in plist:
                 env = dict(os.environ, MVF_NO_EVIDENCE="1", MVF_REPO=wt)
+                pr = subprocess.Popen([os.path.join(VERIF, "check"), p, "quick"], env=env, stdout=subprocess.PIPE,
+                                      stderr=subprocess.DEVNULL, text=True, start_new_session=True)
                 try:
-                    r = subprocess.run([os.path.join(VERIF, "check"), p, "quick"], env=env, capture_output=True,
-                                       text=True, timeout=1500)
-                    rc = r.returncode
-                    rules = sorted({l.split("rule=")[1].split()[0] for l in r.stdout.splitlines() if "rule=" in l})
+                    so, _ = pr.communicate(timeout=1800)
+                    rc = pr.returncode
+                    rules = sorted({l.split("rule=")[1].split()[0] for l in so.splitlines() if "rule=" in l})
                 except subprocess.TimeoutExpired:
+                    import signal
+                    os.killpg(pr.pid, signal.SIGKILL)       # the whole process group, not only the shell
+                    pr.wait()
                     rc, rules = 124, ["timeout"]
                 row[p] = dict(rc=rc, rules=rules[:4])
                 if rc == 1:
